@@ -46,3 +46,27 @@ class random_choices:
     returns = "list"
     requires = lambda population, k: k >= 0 and len(population) >= 1
     ensures = lambda population, k, result: len(result) == k and S.ALL_STRS(result, 0)
+
+
+# ---- calendar constructors (C16): assumed contracts of the standard library, cross-checked by `vcheck axioms`
+@external("datetime.time")
+class datetime_time:
+    """time(hour, minute, second, microsecond): a naive time of day with exactly these fields; out-of-range ⇒ ValueError"""
+    params = ["hour", "minute", "second", "microsecond"]
+    types = dict(hour="int", minute="int", second="int", microsecond="int")
+    returns = "py"
+    raises = [R("ValueError", when=lambda hour, minute, second, microsecond: not (
+        0 <= hour and hour < 24 and 0 <= minute and minute < 60 and 0 <= second and second < 60
+        and 0 <= microsecond and microsecond < 1000000))]
+    ensures = lambda hour, minute, second, microsecond, result: (
+        S.is_time(result) and S.tod_hour(result) == hour and S.tod_minute(result) == minute
+        and S.tod_second(result) == second and S.tod_micro(result) == microsecond)
+
+
+@external("datetime.date.fromordinal")
+class date_fromordinal:
+    params = ["n"]
+    types = dict(n="int")
+    returns = "py"
+    raises = [R("ValueError", when=lambda n: not (1 <= n and n <= 3652059))]
+    ensures = lambda n, result: S.is_date(result) and S.date_ordinal(result) == n
